@@ -8,6 +8,7 @@ def run(tier, seed):
         deductive=[
             ("c01_step", r"C01\.|\.post\.|no_other_exception|InvalidGradient|ValueError_only"),
             ("c01_rb", None),
+            ("c01_topo", None),
             ("c14_seed", r"C01\.sweep|collect_first|clear_graph_last|sweep_only|constant_receiver"),
         ],
         bounded=[("graph_bounded.py", ["--check", "C01"])],
@@ -19,7 +20,7 @@ def run(tier, seed):
         assumptions=[
             "floats are mathematical reals; array values are abstracted pointwise (one Real per array), reductions are the uninterpreted RFUN",
             "VCs are quantifier-free: universally quantified hypotheses are instantiated over {t*, u*, vars[k]} (sound, possibly incomplete)",
-            "Tensor.backward's sweep loop and the recursive collector are checked on the abstract graph model in c01_topo; the remaining glue is bounded",
+            "the recursive collector (c01_topo) and Tensor.backward's seeding / sweep sequencing (c14_seed) are discharged on the heap model with callee contracts; rank (acyclicity of the recorded graph) is assumed",
         ],
         explanation="Graph mechanics: Operation.backward (symbolic arity, arbitrary aliasing / prior gradient state), reduce_broadcast (all shapes up to rank 4 "
         "with unbounded sizes) and the topological collector are discharged deductively; the end-to-end claim (x.grad equals the total derivative for whole "
